@@ -33,7 +33,7 @@ type genCfg struct {
 	okPT     bool // PostTransforms never fail
 	cbHeavy  bool // user tests and PostTransforms on (almost) every node
 	easy     bool // few, easily satisfied tests
-	catchPct int // probability (percent) that a primitive has Catch; 0 = default 25
+	catchPct int  // probability (percent) that a primitive has Catch; 0 = default 25
 	maxDepth int
 	noCatch  bool
 	noPT     bool
